@@ -1,6 +1,7 @@
 SPECIFICATION Spec
 CONSTANTS
   FullWidthPad = FALSE
+  WsIgnored = TRUE
 INVARIANTS Refines
 POSTCONDITION Accepted
 CHECK_DEADLOCK FALSE
